@@ -269,6 +269,25 @@ Example ex_stack_agrees :
   end.
 Proof. vm_compute. repeat split; reflexivity. Qed.
 
+(* the side condition `go_names` (no rule named like a hard-coded name) is necessary: pest_vm lets a rule of the grammar
+   shadow a built-in (fix 76a77f3), the Spec resolves the built-ins first.   ASCII_DIGIT = { "z" }   r = { ASCII_DIGIT } *)
+Definition ex_shadow : ogrammar := [
+  {| oname := nm "ASCII_DIGIT"; oty := RNormal; oexpr_of := tx "z" |};
+  {| oname := nm "r"; oty := RNormal; oexpr_of := ri "ASCII_DIGIT" |} ].
+Example ex_shadow_differs :
+  grammar_okb ex_shadow false no_unicode false = false /\
+  match vm_parse ex_shadow no_unicode ex_cfg (nm "z") 50 (nm "r") false,
+        spec_parse (embed_g ex_shadow) false (uprop no_unicode) (nm "z") 20 (nm "r") with
+  | OPairs q, SFail => forest q = [Node 1 None 0 1 [Node 0 None 0 1 []]]      (* the VM matches "z", the Spec does not *)
+  | _, _ => False
+  end /\
+  match vm_parse ex_shadow no_unicode ex_cfg (nm "5") 50 (nm "r") false,
+        spec_parse (embed_g ex_shadow) false (uprop no_unicode) (nm "5") 20 (nm "r") with
+  | OParsingError _ _ _, SMatch 1 [] [Node 1 None 0 1 []] => True                (* the Spec matches "5", the VM does not *)
+  | _, _ => False
+  end.
+Proof. vm_compute. repeat split; reflexivity. Qed.
+
 (* ---------- closed with the optimizer (C05) and the validator (C06) ---------- *)
 Require Import PV.Valid.Validator PV.Opt.List PV.Opt.Pipeline PV.Peg.Close2.
 
